@@ -73,20 +73,28 @@ struct Proto {
     ecu: &'static str,
     ext: Option<(u8, u8, &'static str, &'static str)>, // vmm, noar, apid, ctid
     payload: Vec<u8>,
+    tag: &'static str, // coverage label: "<plugin>:<extended header variant>" for traffic matching that plugin
+}
+impl Proto {
+    fn t(mut self, tag: &'static str) -> Proto {
+        self.tag = tag;
+        self
+    }
 }
 
 fn proto(ecu: &'static str, vmm: u8, apid: &'static str, ctid: &'static str, np: (u8, Vec<u8>)) -> Proto {
-    Proto { ecu, ext: Some((vmm, np.0, apid, ctid)), payload: np.1 }
+    Proto { ecu, ext: Some((vmm, np.0, apid, ctid)), payload: np.1, tag: "" }
 }
 fn proto_nv(ecu: &'static str, apid: &'static str, ctid: &'static str, payload: Vec<u8>) -> Proto {
-    Proto { ecu, ext: Some((NV_LOG_INFO, 0, apid, ctid)), payload }
+    Proto { ecu, ext: Some((NV_LOG_INFO, 0, apid, ctid)), payload, tag: "" }
 }
 fn proto_noext(ecu: &'static str, payload: Vec<u8>) -> Proto {
-    Proto { ecu, ext: None, payload }
+    Proto { ecu, ext: None, payload, tag: "" }
 }
 
-fn finish(protos: Vec<Proto>, rx0: u64) -> Vec<DltMessage> {
-    protos
+fn finish(protos: Vec<Proto>, rx0: u64) -> (Vec<DltMessage>, Vec<String>) {
+    let tags: Vec<String> = protos.iter().map(|p| p.tag.to_string()).collect();
+    let msgs = protos
         .into_iter()
         .enumerate()
         .map(|(i, p)| DltMessage {
@@ -100,7 +108,8 @@ fn finish(protos: Vec<Proto>, rx0: u64) -> Vec<DltMessage> {
             payload_text: None,
             lifecycle: 0,
         })
-        .collect()
+        .collect();
+    (msgs, tags)
 }
 
 fn someip_hdr(service: u16, method: u16, payload: &[u8]) -> Vec<u8> {
@@ -114,7 +123,7 @@ fn someip_hdr(service: u16, method: u16, payload: &[u8]) -> Vec<u8> {
 }
 
 /// traffic matching and not matching every plugin kind, control messages, arbitrary payloads, several id populations
-fn mixed_stream(rng: &mut Rng) -> Vec<DltMessage> {
+fn mixed_stream(rng: &mut Rng) -> (Vec<DltMessage>, Vec<String>) {
     let mut groups: Vec<Vec<Proto>> = Vec::new();
     // --- non-verbose (FIBEX of tests/non_verbose*.xml: ECU "Ecu1")
     let nv_ids: [u32; 5] = [805312382, 805834673, 800000000, 12345, 805834673];
@@ -187,6 +196,40 @@ fn mixed_stream(rng: &mut Rng) -> Vec<DltMessage> {
     groups.push(vec![proto("ECU1", V_LOG_INFO, "APP", "FILE", verb(&[A::Str("FLDA"), A::U32(44), A::U32(1), A::Raw(&d2), A::Str("FLDA")]))]); // other apid: never dropped
     groups.push(vec![proto("ECU1", V_LOG_INFO, "SYS", "FILE", verb(&[A::Str("FLDA"), A::U32(45), A::U32(1), A::Raw(&d2), A::Str("FLDX")]))]); // not FLDA framed
     groups.push(vec![proto("ECU1", V_LOG_INFO, "SYS", "FILE", verb(&[A::Str("FLIF"), A::U32(42), A::Str("x"), A::Str("FLIF")]))]);
+    // --- every decoder: traffic that MATCHES it, in all extended-header variants (an existing header must stay untouched)
+    const HV: [(&str, Option<(u8, u8, &str, &str)>); 7] = [
+        ("absent", None),
+        ("fibex_ids", Some((0x50, 0, "HLD", "MAIN"))),
+        ("other_ids", Some((NV_LOG_INFO, 0, "APP1", "CTX1"))),
+        ("zero_apid", Some((0x30, 1, "", "CTX1"))),
+        ("zero_apid_ctid", Some((0x30, 1, "", ""))),
+        ("zero_ctid", Some((NV_LOG_INFO, 0, "APP1", ""))),
+        ("other_type_noar", Some((0x12, 3, "APP1", "CTX1"))),
+    ];
+    const NV_TAGS: [&str; 7] = ["nonverbose:absent", "nonverbose:fibex_ids", "nonverbose:other_ids", "nonverbose:zero_apid", "nonverbose:zero_apid_ctid", "nonverbose:zero_ctid", "nonverbose:other_type_noar"];
+    for (id, extra) in [(805312382u32, 0usize), (805834673, 11), (800000000, 0)] {
+        for (k, (_, ext)) in HV.iter().enumerate() {
+            let mut pl = id.to_le_bytes().to_vec();
+            pl.extend_from_slice(&rng.bytes(extra));
+            groups.push(vec![Proto { ecu: "Ecu1", ext: *ext, payload: pl, tag: NV_TAGS[k] }]);
+        }
+    }
+    for (tag, apid, noar_claim) in [("someip:apid", "SIP", 2u8), ("someip:zero_apid", "", 2), ("someip:other_apid", "XYZ1", 2), ("someip:other_noar", "SIP", 5)] {
+        let (_, pl) = verb(&[A::Raw(&ip9), A::Raw(&someip_hdr(64098, 1000, &[3]))]);
+        groups.push(vec![Proto { ecu: "ECU1", ext: Some((V_NW_IPC, noar_claim, apid, "TC")), payload: pl, tag }]);
+    }
+    for (tag, apid, noar_claim) in [("can:apid", "CAN", 2u8), ("can:zero_apid", "", 2), ("can:other_apid", "XYZ1", 2), ("can:other_noar", "CAN", 4)] {
+        let (_, pl) = verb(&[A::U32(0x2ae), A::Raw(&rng.bytes(8))]);
+        groups.push(vec![Proto { ecu: "ECU1", ext: Some((V_NW_CAN, noar_claim, apid, "TC")), payload: pl, tag }]);
+    }
+    for (tag, vmm, apid) in [("muniic:apid", V_LOG_INFO, "MUN"), ("muniic:zero_apid", V_LOG_INFO, ""), ("muniic:other_apid", V_LOG_INFO, "OTH"), ("muniic:other_type", 0x13u8, "MUN"), ("muniic:other_level", 0x31, "MUN")] {
+        let (n, pl) = mu(1228779599, 3478824001, &[1]);
+        groups.push(vec![Proto { ecu: "ECU3", ext: Some((vmm, n, apid, "MMSG")), payload: pl, tag }]);
+    }
+    for (tag, vmm, two) in [("rewrite:info", V_LOG_INFO, false), ("rewrite:warn", 0x31u8, false), ("rewrite:apptrace", 0x13, false), ("rewrite:noar2", V_LOG_INFO, true)] {
+        let (n, pl) = if two { verb(&[A::Str("x y 12.25 rewritten"), A::U32(9)]) } else { verb(&[A::Str("x y 12.25 rewritten text")]) };
+        groups.push(vec![Proto { ecu: "ECU1", ext: Some((vmm, n, "SYS", "JOUR")), payload: pl, tag }]);
+    }
     // --- control messages
     groups.push(vec![proto("ECU1", CTRL_REQ, "DA1", "DC1", (0, vec![19, 0, 0, 0]))]);
     let mut sw = vec![19, 0, 0, 0, 0];
@@ -209,7 +252,7 @@ fn mixed_stream(rng: &mut Rng) -> Vec<DltMessage> {
         if rng.chance(1, 4) {
             groups.push(vec![proto_noext("ECU2", pl)]);
         } else {
-            groups.push(vec![Proto { ecu: "ECU2", ext: Some((vmm, noar, *rng.pick(&["ARB", "SYS", "CAN"]), *rng.pick(&["TC", "JOUR", "MMSG", "FILE"]))), payload: pl }]);
+            groups.push(vec![Proto { ecu: "ECU2", ext: Some((vmm, noar, *rng.pick(&["ARB", "SYS", "CAN"]), *rng.pick(&["TC", "JOUR", "MMSG", "FILE"]))), payload: pl, tag: "" }]);
         }
     }
     // --- id populations
@@ -228,7 +271,7 @@ fn mixed_stream(rng: &mut Rng) -> Vec<DltMessage> {
 }
 
 /// known finding #18: control responses whose first argument is shorter than 4 bytes, between ordinary messages
-fn kf_stream(rng: &mut Rng) -> Vec<DltMessage> {
+fn kf_stream(rng: &mut Rng) -> (Vec<DltMessage>, Vec<String>) {
     let mut v = Vec::new();
     for i in 0..3 {
         v.push(proto("ECU1", V_LOG_INFO, "APP", "CTX", verb(&[A::Str("before"), A::U32(i)])));
@@ -347,7 +390,7 @@ fn vec_of(m: &DltMessage) -> Value {
     })
 }
 
-fn in_event(pos: usize, m: &DltMessage) -> Value {
+fn in_event(pos: usize, m: &DltMessage, tag: &str) -> Value {
     let flda = m.is_verbose()
         && m.verb_mstp_mtin().map(|v| v >> 1 == (4 << 3)).unwrap_or(false)
         && m.noar() == 5
@@ -355,7 +398,7 @@ fn in_event(pos: usize, m: &DltMessage) -> Value {
         && m.ctid() == Some(&char4("FILE"))
         && FileTransferPlugin::is_type(m, "FLDA");
     let a0 = m.into_iter().next().map(|a| a.payload_raw.len() as i64).unwrap_or(-1);
-    json!({"ev":"in","pos":pos,"vec":vec_of(m),"flda":flda,"cr":m.is_ctrl_response(),"a0":a0})
+    json!({"ev":"in","pos":pos,"vec":vec_of(m),"flda":flda,"cr":m.is_ctrl_response(),"a0":a0,"tag":tag})
 }
 
 // ------------------------------------------------------------------------------------------------ plugins
@@ -481,7 +524,7 @@ fn main() {
             let orig = file_stream(&p_in, usize::MAX);
             t.ev(json!({"ev":"reset","case":case,"hdr":{"chain":chain,"stream":stream,"file":e["file"].as_str().unwrap_or(""),"n":orig.len()}}));
             for (i, m) in orig.iter().enumerate() {
-                t.ev(in_event(i + 1, m));
+                t.ev(in_event(i + 1, m, ""));
             }
             let (code, _so, se) = run_adlt(&adlt, &["--anon".into(), "-o".into(), p_out.clone(), p_in.clone()]);
             let outs = file_stream(&p_out, usize::MAX);
@@ -503,12 +546,12 @@ fn main() {
             let _ = std::fs::remove_file(&p_out);
             continue;
         }
-        let msgs = match stream {
+        let (msgs, tags) = match stream {
             "mixed" => mixed_stream(&mut rng),
             "kf" => kf_stream(&mut rng),
-            "lc" => lc_stream(&mut rng),
-            "ids" => ids_stream(&mut rng),
-            "file" => file_stream(e["file"].as_str().unwrap(), e["n"].as_u64().unwrap() as usize),
+            "lc" => (lc_stream(&mut rng), vec![]),
+            "ids" => (ids_stream(&mut rng), vec![]),
+            "file" => (file_stream(e["file"].as_str().unwrap(), e["n"].as_u64().unwrap() as usize), vec![]),
             other => panic!("unknown stream {}", other),
         };
         let plugins = match mk_plugins(&chain, &tests, &work, case) {
@@ -520,7 +563,7 @@ fn main() {
         };
         t.ev(json!({"ev":"reset","case":case,"hdr":{"chain":chain,"stream":stream,"file":e["file"].as_str().unwrap_or(""),"n":msgs.len()}}));
         for (i, m) in msgs.iter().enumerate() {
-            t.ev(in_event(i + 1, m));
+            t.ev(in_event(i + 1, m, tags.get(i).map(|s| s.as_str()).unwrap_or("")));
         }
         let (outs, pan) = run_chain(plugins, msgs.clone());
         for m in &outs {
